@@ -39,8 +39,9 @@ CLAIMED = {
         "polynomial normal form of slice bounds and coefficient indices; exact factorial table check; bound propagation to table length",
         "clause-level static decision: degree blocks [l^2,(l+1)^2) tile the coefficient vector in make_N_invariants and the "
         "power spectrum, real-layout pattern/weights, P-invariant index plumbing (clebsch arguments vs coefficient indices, "
-        "loop order, triangle test, parity split), block-boundary cap, exact factorial table and its reachable index range.",
-        "decides R08.1-R08.3 on the current source; rotation invariance as a numerical fact and the Racah formula are not decided",
+        "loop order, triangle test, parity split), the Clebsch-Gordan routine compared term by term with the Racah formula of its reference "
+        "(C integer division kept), the bilinear form of the P invariants, block-boundary cap, exact factorial table and its reachable index range.",
+        "decides R08.1-R08.3 on the current source; rotation invariance as a numerical fact is not decided, the Racah formula itself is taken from the reference",
     ),
     "C01": (
         "symbolic slice polynomials and index chains: block layout of the orbit buffers, column alignment under one mask, wrap-before-merge data flow, merge-guard strictness, producer/consumer key agreement",
